@@ -328,6 +328,11 @@ class Summaries:
             a = ctx.args[0]
             return to_iter(ctx, a)
 
+        @regx(r'as std::iter::IntoIterator>::into_iter$|^std::iter::IntoIterator::into_iter$')
+        def _(ctx):
+            # any other IntoIterator (generic `impl IntoIterator` parameters, adaptors ...): the value itself decides
+            return to_iter(ctx, ctx.args[0])
+
         def to_iter(ctx, a, mode='val'):
             if isinstance(a, IterV):
                 return a
@@ -368,6 +373,21 @@ class Summaries:
         @reg('std::iter::Iterator::map')
         def _(ctx):
             return to_iter(ctx, ctx.args[0]).with_op(('map', ctx.args[1]), ctx.ret_ty)
+
+        @regx(r'^std::ops::(Fn::call|FnMut::call_mut|FnOnce::call_once)$|^core::ops::function::(Fn::call|FnMut::call_mut|FnOnce::call_once)$')
+        def _(ctx):
+            f = deref(ctx, ctx.args[0])
+            tup = ctx.args[1] if len(ctx.args) > 1 else UNIT
+            if isinstance(tup, StructV) and all(k.isdigit() for k in tup.fields):
+                cargs = [tup.fields[str(i)] for i in range(len(tup.fields))]
+            elif tup is UNIT:
+                cargs = []
+            else:
+                cargs = [tup]
+            if isinstance(f, (ClosureV, FnV)):
+                return eng.call_value(ctx.st, f, cargs, ctx.depth, ctx.fr, ctx.bi)
+            ctx.oblige('unknown-callee', 'call through a function value that is not known', False, repr(f))
+            return eng.mk_default(ctx.st, ctx.ret_ty)
 
         @reg('std::iter::Iterator::chain')
         def _(ctx):
@@ -1510,6 +1530,19 @@ class Summaries:
         def _(ctx):
             return EnumV(ctx.ret_ty, {1}, {1: StructV('Err', {'0': OpaqueV('err', next(_c))})})
 
+        @regx(r'^std::option::Option::<T>::(replace|insert)$')
+        def _(ctx):
+            a, v = ctx.args
+            what = ctx.callee.split('::')[-1]
+            if not isinstance(a, RefV):
+                return eng.mk_default(ctx.st, ctx.ret_ty)
+            old = eng.read(ctx.st, a.path)
+            oty = old.ty if isinstance(old, EnumV) else 'std::option::Option<?>'
+            eng.write(ctx.st, a.path, some(oty, v), log=(a.path[0] == ('H', 'S')))
+            if what == 'replace':
+                return old if isinstance(old, EnumV) else eng.mk_default(ctx.st, ctx.ret_ty)
+            return RefV((a.path[0], a.path[1] + (('v', 1), ('f', '0', '?'))), True)
+
         @reg('std::option::Option::<T>::unwrap_or_else')
         def _(ctx):
             f = ctx.args[1]
@@ -1709,7 +1742,7 @@ class Summaries:
                     return BoolV(None, ('tag', a.path, want))
             return BoolV(None, ('fact', ('is_some', next(_c))))
 
-        @reg('<std::option::Option<T> as std::cmp::PartialEq>::eq')
+        @reg('<std::option::Option<T> as std::cmp::PartialEq>::eq', 'std::cmp::PartialEq::eq')
         def _(ctx):
             pa, pb = ctx.args[0], ctx.args[1]
             a = deref(ctx, pa)
@@ -1728,7 +1761,28 @@ class Summaries:
                         return x if y.val else BoolV(None, ('not', x))
                     if x.val is not None:
                         return y if x.val else BoolV(None, ('not', y))
+                if isinstance(x, StructV) and isinstance(y, StructV) and x.fields and set(x.fields) == set(y.fields):
+                    # a derived PartialEq compares field by field
+                    acc = BoolV(True)
+                    for n in sorted(x.fields):
+                        r = payload_eq(x.fields[n], y.fields[n])
+                        if r is None:
+                            return None
+                        if r.val is False:
+                            return BoolV(False)
+                        if r.val is True:
+                            continue
+                        acc = r if acc.val is True else BoolV(None, ('and', acc, r))
+                    return acc
                 return None
+            if isinstance(a, NumV) and isinstance(b, NumV):
+                return payload_eq(a, b)
+            if isinstance(a, (StrV, CharV)) and isinstance(b, (StrV, CharV)):
+                return self.streq(ctx, a, b)
+            if isinstance(a, StructV) and isinstance(b, StructV) and a.ty == b.ty and a.ty in eng.prog.adts:
+                r = payload_eq(a, b)
+                if r is not None:
+                    return r
             if isinstance(a, EnumV) and isinstance(b, EnumV):
                 if len(a.tags) == 1 and len(b.tags) == 1:
                     if a.tags != b.tags:
@@ -2523,6 +2577,48 @@ class Summaries:
             bump(ctx, path, c, known=(), length=NumV(None, 0, 'usize'), prov=('cleared', c.prov))
             return UNIT
 
+        @regx(r'^<std::collections::(HashMap<K, V>|HashSet<T>|BTreeMap<K, V>) as std::convert::From<\[.*; N\]>>::from$|^<std::vec::Vec<T> as std::convert::From<\[T; N\]>>::from$')
+        def _(ctx):
+            src = deref1(ctx, ctx.args[0])
+            rty = ctx.ret_ty
+            head, _a = split_generic(rty)
+            kind = {'std::vec::Vec': 'vec', 'std::collections::HashSet': 'set'}.get(head, 'map')
+            if isinstance(src, CollV) and src.known is not None:
+                kn = build_known(kind, list(src.known))
+                if kn is not None:
+                    return CollV(kind, rty, next(_c), length=NumV(None, len(kn), 'usize') if kind == 'vec' else None, known=kn, prov=('from-array',))
+            return eng.mk_default(ctx.st, rty)
+
+        @regx(r"^<std::string::String as std::iter::Extend<(&'a )?char>>::extend$")
+        def _(ctx):
+            r = ctx.args[0]
+            cur = sval(ctx, r)
+            it = to_iter(ctx, ctx.args[1])
+            ex = exact_items(ctx, ctx.st, it) if isinstance(it, IterV) else None
+            if ex is not None and len(ex) == 1 and ex[0][0] is ctx.st and isinstance(cur, StrV) and cur.known is not None:
+                parts = []
+                for x in ex[0][1]:
+                    x = deref(ctx, x)
+                    if isinstance(x, CharV) and x.known is not None:
+                        parts.append(x.known)
+                    else:
+                        parts = None
+                        break
+                if parts is not None:
+                    nv = StrV(cur.known + ''.join(parts), prov=('extend',))
+                    if isinstance(r, RefV):
+                        eng.write(ctx.st, r.path, nv)
+                    return UNIT
+            analyse_adaptors(ctx, ctx.st, it)
+            if isinstance(cur, StrV) and cur.known == '' and isinstance(it, IterV):
+                # an empty string extended with an iterator is that iterator collected
+                nv = StrV(None, prov=('collect', it.key(), tuple(o[0] for o in it.ops), it), oid=next(_c))
+            else:
+                nv = StrV(None, oid=next(_c), prov=('extend', cur.key() if isinstance(cur, V) else None))
+            if isinstance(r, RefV):
+                eng.write(ctx.st, r.path, nv)
+            return UNIT
+
         @reg('<std::collections::HashMap<K, V, S, A> as std::iter::Extend<(K, V)>>::extend')
         def _(ctx):
             path, c = coll_at(ctx, ctx.args[0])
@@ -2530,6 +2626,8 @@ class Summaries:
             log(ctx, 'map.extend', spath(path), src)
             known = None
             sv = deref1(ctx, src)
+            if isinstance(sv, CollV) and sv.kind != 'map':
+                sv = to_iter(ctx, src)      # an array / vector / slice of (key, value) pairs
             if c.known is not None and isinstance(sv, CollV) and sv.known is not None and all(_is_const(k) for k, _ in sv.known) \
                     and all(_is_const(k) for k, _ in c.known):
                 kn = list(c.known)
